@@ -213,6 +213,9 @@ def plan_C08(c):
     g_bounds(c, ['eq', 'ne', 'lt', 'le', 'gt', 'ge', 'cmp', 'partial_cmp', 'min', 'max'], kind='cmp')
     v(c, 'c08', 5000, 200000)
     v(c, 'c08a', 2000, 60000)
+    if c.tier != 'quick':
+        # hand-written ArchivedDecimal of the packed layout
+        v(c, 'c08a', 2000, 60000, features=('packed', 'rkyv'), label='packed')
 
 
 def plan_C09(c):
@@ -288,7 +291,56 @@ def plan_C16(c):
     v(c, 'c16', 4000, 120000)
 
 
+FORM_OPS = ['add', 'sub', 'mul', 'div', 'rem', 'checked_add', 'checked_sub', 'checked_mul', 'checked_div', 'checked_rem',
+            'div_rounded', 'quantize', 'eq', 'lt', 'mul_rounded']
+INT_TYPES9 = ['u8', 'i8', 'u16', 'i16', 'u32', 'i32', 'u64', 'i64', 'i128']
+INT_RANGE = {'u8': (0, 2**8 - 1), 'i8': (-2**7, 2**7 - 1), 'u16': (0, 2**16 - 1), 'i16': (-2**15, 2**15 - 1), 'u32': (0, 2**32 - 1),
+             'i32': (-2**31, 2**31 - 1), 'u64': (0, 2**64 - 1), 'i64': (-2**63, 2**63 - 1), 'i128': (-(2**127 - 1), 2**127 - 1)}
+X_CLASSES = [(0, 0), (0, 3), (1, 0), (10, 1), (1000, 3), (-1, 0), (15, 1), (-25, 1), (12345, 3), (7, 18), (-3, 17),
+             (2**127 - 1, 0), (-(2**127 - 1), 2), (10**18, 18), (5 * 10**17, 18), (17014118346046923173168730371588410572, 1)]
+
+
+def int_class(ty, ii):
+    lo, hi = INT_RANGE[ty]
+    return [0, 1, 2, 3, 7, 10, hi, hi - 1, lo, lo + 1, -1 if lo < 0 else 5, -7 if lo < 0 else 100][ii - 1]
+
+
 def plan_C17(c):
+    # every operation x integer type x operand position x Decimal class x integer class (TLC grid): each macro-stamped impl is
+    # executed in its four reference forms and (where it exists) its two compound-assignment forms and compared with the
+    # Decimal::from(i) reference; ty = 9 is the Decimal / Decimal row
+    calls = []
+    vecs = grid(c, 'forms')
+    per = (len(vecs) + 3) // 4
+    modes4 = ['RoundHalfEven', 'RoundFloor', 'RoundUp', 'Round05Up']
+    for i, (op, ty, pos, xi, ii) in enumerate(vecs):
+        if i % per == 0:
+            calls.append({'ev': 'set', 't': 1, 'mode': modes4[i // per]})
+        opn = FORM_OPS[op - 1]
+        x = jdec(X_CLASSES[xi - 1])
+        n = (xi + ii) % 19
+        if ty == 9:
+            y = jdec(X_CLASSES[(xi * 5 + ii) % len(X_CLASSES)])
+            if pos == 1:
+                continue
+            calls.append({'ev': 'forms', 't': 1, 'op': opn, 'x': x, 'y': y, 'xt': 'dec', 'yt': 'dec', 'n': n})
+            continue
+        if opn == 'mul_rounded':
+            continue
+        t = INT_TYPES9[ty]
+        iv = jdec((int_class(t, ii), 0))
+        if pos == 0:
+            calls.append({'ev': 'forms', 't': 1, 'op': opn, 'x': x, 'y': iv, 'xt': 'dec', 'yt': t, 'n': n})
+        else:
+            calls.append({'ev': 'forms', 't': 1, 'op': opn, 'x': iv, 'y': x, 'xt': t, 'yt': 'dec', 'n': n})
+        if opn in ('div_rounded', 'quantize') and pos == 0 and xi <= 12:
+            calls.append({'ev': 'forms', 't': 1, 'op': opn, 'x': jdec((int_class(t, xi), 0)), 'y': iv, 'xt': t, 'yt': t, 'n': n})
+    run_vectors_with_modes(c, calls, 'forms')
+    impls = set()
+    for e in calls:
+        if e['ev'] == 'forms':
+            impls.add((e['op'], e['xt'], e['yt']))
+    c.cov['distinct_impl_rows_exercised'] = len(impls)      # x 4 reference forms (+ 2 assignment forms) each
     v(c, 'c17', 3000, 100000)
 
 
